@@ -152,6 +152,15 @@ def task(arg):
                     d = np.asarray(sim.delta, dtype=float)
                     if not np.allclose(d, lo + span / 2, rtol=1e-12, atol=1e-300):
                         V(f"C18/{func}/{route}/reference-variance-not-used", f"delta {js(d)} is not the midpoint {lo + span / 2}; {where0}")
+                    for rep_i in (2, 3):  # the same situation at the following steps
+                        with warnings.catch_warnings():
+                            warnings.simplefilter("ignore")
+                            sim.update_delta()
+                        counters["evaluations"] += 1
+                        d = np.asarray(sim.delta, dtype=float)
+                        if np.any(d < lo - ulp4) or np.any(d > hi + ulp4) or not np.allclose(d, lo + span / 2, rtol=1e-12, atol=1e-300):
+                            V(f"C18/{func}/{route}/repeated-adaptation-drifts", f"adaptation number {rep_i} without committee data: delta {js(d)}, midpoint {lo + span / 2}, range [{lo},{hi}]; {where0}")
+                            break
                     continue
                 for v in grid:
                     if route in ("committee-forces", "committee-forces-tiny"):
@@ -183,8 +192,13 @@ def task(arg):
                     with warnings.catch_warnings():
                         warnings.simplefilter("ignore")
                         sim.update_delta()
-                    counters["evaluations"] += 1
+                        d_first = np.array(sim.delta, dtype=float, copy=True)
+                        sim.update_delta()  # same inputs again: same step length
+                    counters["evaluations"] += 2
                     d = np.asarray(sim.delta, dtype=float)
+                    if d.shape == d_first.shape and not np.array_equal(np.nan_to_num(d), np.nan_to_num(d_first)):
+                        V(f"C18/{func}/{route}/same-inputs-different-delta", f"two consecutive adaptations with unchanged variance give {js(d_first)} then {js(d)}; v={v}; {where0}")
+                        continue
                     ev = np.broadcast_to(np.asarray(expect_v, dtype=float), d.shape) if d.shape else np.asarray(expect_v, dtype=float)
                     where = f"v={js(expect_v) if np.ndim(expect_v) == 0 else 'array incl. ' + str(v)}; {where0}"
                     if 0 < v < 1e3 * ref:
